@@ -443,6 +443,40 @@ def _trace_validate(rep, d, seed, count, length):
     rep.sample({"random_history": hs[0]})
 
 
+def _repo_tests_trace(rep, d):
+    """R3 on the repository's OWN tests: every BeartypeConf construction performed by the pinned configuration
+    tests is recorded (verifkit/pytest_rec_conf.py) and validated by ConfTrace.tla."""
+    import subprocess
+    repo = os.environ.get("VERIF_REPO", "/repo")
+    out = os.path.join(d, "repo_tests_conf.ndjson")
+    tests = ["beartype_test/a00_unit/a30_api/conf", "beartype_test/a00_unit/a60_decor/a00_core/test_decorconf.py",
+             "beartype_test/a00_unit/a60_decor/a90_roar/test_roarviolation.py"]
+    cp = subprocess.run([sys.executable, "-m", "pytest", "-q", "-p", "no:cacheprovider", "-p", "verifkit.pytest_rec_conf"]
+                        + tests, cwd=repo, capture_output=True, text=True,
+                        env={**os.environ, "VERIF_CONF_TRACE": out, "PYTHONPATH": os.environ.get("PYTHONPATH", "")})
+    if not os.path.exists(out):
+        rep.note("repository tests produced no configuration trace: " + cp.stdout[-300:] + cp.stderr[-300:])
+        return
+    n = sum(1 for l in open(out) if '"Make"' in l)
+    if n < 5:
+        rep.note(f"repository tests produced only {n} recordable BeartypeConf constructions")
+        return
+    res = tlc.run_tlc("trace/ConfTrace.tla", "trace/ConfTrace.cfg", workers=1, env={"TRACE_FILE": out})
+    rep.tlc(res, "ConfTrace on the repository's own configuration tests")
+    rep.add("repo_test_conf_constructions_validated", n)
+    if res.violated:
+        rej = [r for r in res.printed if isinstance(r, dict) and "rejected_at" in r]
+        pos = rej[-1]["rejected_at"] if rej else None
+        lines = open(out).read().splitlines()
+        bad = json.loads(lines[pos - 1]) if pos and pos <= len(lines) else {}
+        kw = {o: [x["ty"], x["v"]] for o, x in bad.get("kw", {}).items() if (x["ty"], x["v"]) != default_of(o)}
+        rep.violation({"kind": "repo-test-trace", "call": kw, "got": bad.get("out")},
+                      f"a BeartypeConf construction performed by the repository's own tests is not a behaviour of "
+                      f"Conf.tla: event {pos} BeartypeConf({_fmt(kw)}) -> {bad.get('out')}", {"event": bad})
+    else:
+        rep.add("traces_validated_against_impl", 1)
+
+
 def _env_var(rep):
     """documented adjustment: ${BEARTYPE_IS_COLOR} overrides is_color."""
     import subprocess
@@ -485,6 +519,7 @@ def run(rep, tier, seed):
             _model_group(rep, d, ["is_debug", "is_color"], 3, "deep", replay_edges=False)
         _trace_validate(rep, d, seed, 200 if tier == "quick" else 3000, 12 if tier == "quick" else 20)
         _env_var(rep)
+        _repo_tests_trace(rep, d)
     rep.cov["exhaustive"] = tier == "thorough"
 
 
